@@ -22,7 +22,7 @@ TECHNIQUE = 'inverse-physical-law oracle over random parameter sets, per-branch 
 RULE = ('parameter sets over physical ranges x 25 points each; non-trivial = set exercising a non-default branch (lead != 0, T < 0, initial '
         'voltage != 0, gain != 1, voltage excitation); distinct = rounded parameter tuple')
 ASSUMPTIONS = ['tolerance 1e-6 relative with a 1e-9 absolute floor near zero']
-REQUIRED = ['repeated_scale_calls', 'through_channel_chained', 'input_dtype_independence_calls', 'single_precision_points', 'rtd_cross_object_points', 'purity_calls', 'rtd_points', 'rtd_branch_point_sets', 'rtd_quartic_points', 'thermistor_points', 'strain_points', 'poly_points', 'table_points', 'through_channel',
+REQUIRED = ['decoy_objects', 'repeated_scale_calls', 'through_channel_chained', 'input_dtype_independence_calls', 'single_precision_points', 'rtd_cross_object_points', 'purity_calls', 'rtd_points', 'rtd_branch_point_sets', 'rtd_quartic_points', 'thermistor_points', 'strain_points', 'poly_points', 'table_points', 'through_channel',
             'branch:rtd:2-wire', 'branch:rtd:3-wire', 'branch:rtd:4-wire', 'branch:thermistor:current', 'branch:thermistor:voltage'] + \
            ['branch:strain:%d' % c for c in (10183, 10184, 10185, 10188, 10189, 10271, 10272)]
 N = {'quick': 9600, 'thorough': 3000000}
@@ -211,6 +211,10 @@ def thermistor(case, ctx, rng):
         ctx.distinct(('thermistor', exc, config, round(lead, 2), round(r1), round(offset, 2)))
     ctx.sample({'case': case, 'params': params}, limit=1)
     sc = S.ThermistorScaling(exc, value, config, r1, lead, a_, b_, c_, offset, SG.RAW)
+    # a second thermistor with other coefficients is configured and used in the same process before sc answers
+    decoy = S.ThermistorScaling(exc, value, config, r1 * 1.1, lead, a_ * 1.02, b_ * 0.97, c_ * 1.1, offset + 1.0, SG.RAW)
+    decoy.scale(np.array(volts, dtype='f8'))
+    ctx.count('decoy_objects')
     desc = dict(kind='Thermistor', exc_type=exc, exc_value=value, config=config, r1=r1, lead=lead, a=a_, b=b_, c=c_, t_offset=offset, src=SG.RAW)
     for label, fn in (('direct', lambda: pure_call(ctx, sc, volts, 'thermistor')), ('channel', lambda: through_channel(ctx, desc, volts)),
                       ('chained-channel', lambda: through_channel(ctx, desc, volts, chain=True))):
@@ -269,6 +273,9 @@ def strain(case, ctx, rng):
         ctx.distinct(('strain', config, round(gf, 3), round(nu, 3), round(rl, 2), round(gain, 3), vinit != 0))
     ctx.sample({'case': case, 'params': params}, limit=1)
     sc = S.StrainScaling(config, nu, rg, rl, vinit, gf, gain, vex, SG.RAW)
+    decoy = S.StrainScaling(config, nu * 0.9, rg * 1.1, rl + 0.5, vinit + 1e-4, gf * 1.05, gain * 1.01, vex * 1.1, SG.RAW)
+    decoy.scale(np.array(vo, dtype='f8'))
+    ctx.count('decoy_objects')
     desc = dict(kind='Strain', config=config, poisson=nu, gage_r=rg, lead=rl, v_init=vinit, gf=gf, gain=gain, v_ex=vex, src=SG.RAW)
     for label, fn in (('direct', lambda: pure_call(ctx, sc, vo, 'strain')), ('channel', lambda: through_channel(ctx, desc, vo)),
                       ('chained-channel', lambda: through_channel(ctx, desc, vo, chain=True))):
@@ -298,6 +305,8 @@ def poly(case, ctx, rng):
     ctx.count('poly_points', len(xs))
     ctx.distinct(('poly', nc, t, tuple(round(c, 6) for c in coeffs[:3])))
     psc = S.PolynomialScaling(coeffs, SG.RAW)
+    S.PolynomialScaling([c_ + 1.0 for c_ in coeffs] + [0.5], SG.RAW).scale(xs.copy())
+    ctx.count('decoy_objects')
     got = psc.scale(xs.copy())
     for rep in range(2):
         ctx.count('repeated_scale_calls')
@@ -332,6 +341,8 @@ def table(case, ctx, rng):
     ctx.count('table_points', len(pts))
     ctx.distinct(('table', desc_order, tuple(xs)))
     tsc = S.TableScaling(np.array(ys), np.array(xs), SG.RAW)
+    S.TableScaling(np.array(ys)[::-1] + 1.0, np.array(xs)[::-1], SG.RAW).scale(pts.copy())
+    ctx.count('decoy_objects')
     got = tsc.scale(pts.copy())
     want = SG.table_interp(pts, xs, ys)
     # the same object is used for every chunk / window of a channel: later calls must answer like the first
